@@ -95,7 +95,9 @@ func main() {
 	})
 }
 
-var hugeLiteral = regexp.MustCompile(`[0-9]{7,}`)
+// sources that declare huge arrays make the compiler allocate tens of GB (known finding of C04, upstream issue
+// #545): 7+ digit literals, ^uint(0) and 1<<NN constants
+var hugeLiteral = regexp.MustCompile(`[0-9]{7,}|\^uint(64)?\(0\)|1\s*<<\s*[3-6][0-9]`)
 
 // corpus derives seeded failing sources from the repository corpus (mutations that usually break
 // the syntax or the typing somewhere in the middle of a realistic file).
